@@ -10,10 +10,10 @@ sys.path.insert(0, os.path.dirname(os.path.abspath(__file__)))
 import vlib, pc
 
 SCN_FOR = {
-    "C01": {"quick": ["A", "D"], "thorough": ["A", "B", "D", "E", "F"]},
+    "C01": {"quick": ["A", "G"], "thorough": ["A", "B", "D", "E", "F", "G"]},
     "C02": {"quick": ["B", "C"], "thorough": ["A", "B", "C", "E", "F"]},
     "C03": {"quick": ["B", "E"], "thorough": ["B", "C", "E", "F"]},
-    "C05": {"quick": ["A", "D", "E"], "thorough": ["A", "B", "D", "E", "F"]},
+    "C05": {"quick": ["A", "D", "E", "G"], "thorough": ["A", "B", "D", "E", "F", "G"]},
 }
 QUICK_PLANS = 2500
 LEVEL = "model_checking"
@@ -23,7 +23,7 @@ def free_scenario(rng, idx):
     """a bigger scenario for the free-running mode (no TLC graph; ProcObs constants are generated from it)"""
     ns = rng.choice([4, 8, 12])
     nm = rng.choice([20, 40])
-    kinds = ["msg"] * 30 + ["exit"]
+    kinds = ["msg"] * 30 + ["exit", "call", "call"]
     senders = {}
     trap = True
     for i in range(1, ns + 1):
